@@ -796,3 +796,98 @@ Example pipeline_example :
   atoms_ok sp (0, 0)%N atoms = true /\
   scan_pipeline [sp] atoms (all_hits atoms d) d = [mkM 1 4 None; mkM 4 7 None].
 Proof. vm_compute. split; reflexivity. Qed.
+
+(* ---- base64: the 9-entry table of verify_base64 --------------------------- *)
+Lemma enc_len_3q : forall q k, enc_len (3 * q + k) = 4 * q + enc_len k.
+Proof.
+  intros q k. unfold enc_len. replace ((3 * q + k) * 8 + 5) with (q * 4 * 6 + (k * 8 + 5)) by lia.
+  rewrite Nat.div_add_l by lia. lia.
+Qed.
+
+Lemma mod4_4q : forall q c, (4 * q + c) mod 4 = c mod 4.
+Proof. intros. rewrite Nat.add_comm, Nat.mul_comm. apply Nat.mod_add. lia. Qed.
+Lemma mod3_3q : forall q c, (3 * q + c) mod 3 = c mod 3.
+Proof. intros. rewrite Nat.add_comm, Nat.mul_comm. apply Nat.mod_add. lia. Qed.
+
+(* The table (decode_start_delta, decode_len, match_len) indexed by the padding
+   and the length of the encoded pattern mod 4 is what the derivation in the
+   documentation gives: the window starts core_start(padding) characters before
+   the match, covers the smallest whole number of 4-character groups that
+   contains padding + n bytes, and the match is the neighbour-independent part. *)
+Theorem b64_table_formulas : forall p n, p <= 2 -> 1 <= n ->
+  b64_table p (enc_len n) =
+  Some (core_start p, enc_len (p + n + (3 - (p + n) mod 3) mod 3), core_len p n).
+Proof.
+  intros p n Hp Hn.
+  assert (Hq : n = 3 * (n / 3) + n mod 3) by (apply Nat.div_mod; lia).
+  pose proof (Nat.mod_upper_bound n 3 ltac:(lia)) as Hr.
+  set (q := n / 3) in *. set (r := n mod 3) in *. clearbody q r. subst n.
+  unfold core_len, core_start.
+  assert (P : p = 0 \/ p = 1 \/ p = 2) by lia. assert (R : r = 0 \/ r = 1 \/ r = 2) by lia.
+  destruct P as [-> | [-> | ->]]; destruct R as [-> | [-> | ->]];
+    repeat match goal with
+    | |- context [enc_len (?a + (3 * q + ?b) + ?c)] => replace (a + (3 * q + b) + c) with (3 * q + (a + b + c)) by lia
+    | |- context [enc_len (?a + (3 * q + ?b))] => replace (a + (3 * q + b)) with (3 * q + (a + b)) by lia
+    | |- context [(?a + (3 * q + ?b)) mod 3] => replace (a + (3 * q + b)) with (3 * q + (a + b)) by lia
+    end;
+    rewrite ?enc_len_3q, ?mod3_3q; cbn [Nat.add];
+    unfold b64_table; rewrite ?mod4_4q;
+    repeat (match goal with |- context [enc_len ?k] => let v := eval vm_compute in (enc_len k) in change (enc_len k) with v end);
+    repeat (match goal with |- context [?a mod ?b] => let v := eval vm_compute in (a mod b) in change (a mod b) with v end);
+    cbn [Nat.eqb]; (apply f_equal; apply f_equal2; [apply f_equal2; lia | lia]).
+Qed.
+
+(* strict decoding (what the base64 crate accepts) implies the permissive
+   decoding used by the specification, with the same bytes *)
+Lemma unsextets_strict_loose : forall l bs, unsextets_strict l = Some bs -> unsextets l = Some bs.
+Proof.
+  fix IH 1. intros [|a [|b [|c [|e t]]]] bs H; cbn [unsextets_strict unsextets] in *; try exact H.
+  - destruct (b mod 16 =? 0)%N; [exact H|discriminate].
+  - destruct (c mod 4 =? 0)%N; [exact H|discriminate].
+  - destruct (unsextets_strict t) as [r|] eqn:E; [|discriminate]. rewrite (IH t r E). exact H.
+Qed.
+
+Lemma b64_decode_strict_loose : forall a cs bs, b64_decode_strict a cs = Some bs -> b64_decode a cs = Some bs.
+Proof.
+  intros a cs bs H. unfold b64_decode_strict, b64_decode in *. destruct (sextets a cs); [|discriminate].
+  apply unsextets_strict_loose. exact H.
+Qed.
+
+(* The base64 members of the family.  K stream (d) compares verify_base64 (the
+   model above, with the table proved equal to the derivation) with the
+   implementation exactly, and checks atoms_ok on the real atoms.  The link to
+   the specification:
+   soundness   every range verify_base64 returns is an occurrence in the sense of
+               Modifiers.b64_occ_at (for some number 0..2 of bytes after the text):
+               PROVED for the ascii encoding (PipelineB64Proofs.
+               pipeline_base64_sound_ascii_partial); for the wide encoding it is left
+               stated, and only for windows without '=' (verify_base64 drops every '='
+               found at an even offset of a wide window, also in the middle, where the
+               specification has no counterpart);
+   completeness every occurrence whose window is a whole number of 4-character
+               groups inside the data is found through the atom: left stated. *)
+Definition pipeline_base64_sound_wide_partial_statement : Prop :=
+  forall lit d p pos alpha s e, p <= 2 -> lit <> [] ->
+    (forall i, nth_error d i = Some 61%N -> False) ->
+    verify_base64 lit d p pos alpha true = Some (s, e) ->
+    sp_match (mkSP (KBase64 lit p alpha true) (mkF false false false false)) (0, 0)%N d s = Some (e, None).
+
+Definition pipeline_base64_complete_partial_statement : Prop :=
+  forall lit d p alpha wide atoms s,
+    let sp := mkSP (KBase64 lit p alpha wide) (mkF false false false false) in
+    atoms_ok sp (0, 0)%N atoms = true ->
+    b64_occ_at alpha wide lit p ((3 - (p + length lit) mod 3) mod 3) d s (core_len p (length lit) * unit_of wide) = true ->
+    exists a pos, In a atoms /\ atom_at a d pos = true /\
+                  handle_atom_match sp a pos d = Some (s, s + core_len p (length lit) * unit_of wide, None).
+
+(* atoms_ok does reject wrong atoms: a wrong backtrack, a missing spelling, an
+   exact flag on a partial atom, a xor key outside the range *)
+Example atoms_ok_rejects :
+  let sp := mkSP (KLiteral [97; 98; 99; 100; 101]%N None) (mkF false true false false) in
+  atoms_ok sp (0, 0)%N [mkAtom 0 [98; 99]%N 1 false; mkAtom 0 [98; 67]%N 1 false; mkAtom 0 [66; 99]%N 1 false; mkAtom 0 [66; 67]%N 1 false] = true /\
+  atoms_ok sp (0, 0)%N [mkAtom 0 [98; 99]%N 2 false; mkAtom 0 [98; 67]%N 2 false; mkAtom 0 [66; 99]%N 2 false; mkAtom 0 [66; 67]%N 2 false] = false /\
+  atoms_ok sp (0, 0)%N [mkAtom 0 [98; 99]%N 1 false; mkAtom 0 [98; 67]%N 1 false; mkAtom 0 [66; 99]%N 1 false] = false /\
+  atoms_ok sp (0, 0)%N [mkAtom 0 [98; 99]%N 1 true; mkAtom 0 [98; 67]%N 1 false; mkAtom 0 [66; 99]%N 1 false; mkAtom 0 [66; 67]%N 1 false] = false /\
+  atoms_ok (mkSP (KXor [97; 98]%N) (mkF false false false false)) (1, 2)%N
+           [mkAtom 0 [96; 99]%N 0 false; mkAtom 0 [99; 96]%N 0 false; mkAtom 0 [98; 97]%N 0 false] = false.
+Proof. vm_compute. repeat split. Qed.
